@@ -41,6 +41,9 @@ type scenario struct {
 	// BETWEEN the epochs as well); run the scenario through experiment.Execute instead of calling NextEpoch directly
 	Reseed bool   `json:"reseed,omitempty"`
 	Via    string `json:"via,omitempty"`
+	// C17 only: the NEAT log level while the scenario runs (the same in every process; the log itself is discarded).  Scenarios
+	// with a log level are the ones whose epochs perturbed processes space out in wall-clock time.
+	LogLevel string `json:"loglevel,omitempty"`
 }
 
 func (sc scenario) options() *neat.Options {
